@@ -70,13 +70,13 @@ theorem inv_publish {s s' : St} {a : Addr} {u : String} {n p : Nat} (hi : Inv s)
     · exact urisNodup_insertBy _ _ _ hi.nodup (fun y hy => by rw [huri]; exact findItem_none hnone y hy)
     · intro x hx
       obtain ⟨y, hy, e, hu⟩ := hi.owner x hx
-      exact ⟨y, (mem_insertBy _ _ _ _).2 (Or.inr hy), e, hu⟩
+      exact ⟨y, (mem_insertBy8 _ _ _ _).2 (Or.inr hy), e, hu⟩
     · intro y hy
-      rcases (mem_insertBy _ _ _ _).1 hy with rfl | hy
+      rcases (mem_insertBy8 _ _ _ _).1 hy with rfl | hy
       · rw [hpub, hinv]; exact ⟨hpp, hpi⟩
       · exact hi.coins y hy
     · intro y hy
-      rcases (mem_insertBy _ _ _ _).1 hy with rfl | hy
+      rcases (mem_insertBy8 _ _ _ _).1 hy with rfl | hy
       · rw [hpr]; exact ha
       · exact hi.pubs y hy
     · intro d
@@ -133,7 +133,7 @@ theorem inv_submitInvalidity {s s' : St} {a : Addr} {u : String} {ix : List Int}
   · cases h
   split at h
   · cases h
-  obtain ⟨hmem, huri⟩ := findItem_some hfind
+  obtain ⟨hmem, huri⟩ := findItem_some8 hfind
   have hcp : it.status = .cp := by
     cases hs : it.status <;> simp_all
   have hun : it.status.unresolved = true := by rw [hcp]; rfl
@@ -156,11 +156,11 @@ theorem inv_submitInvalidity {s s' : St} {a : Addr} {u : String} {ix : List Int}
     intro b hb
     refine ⟨hi.nodup, ?_, hi.coins, hi.pubs, ?_, hi.params, hi.dustNN, ?_⟩
     · intro x hx
-      rcases (mem_insertBy _ _ _ _).1 hx with rfl | hx
+      rcases (mem_insertBy8 _ _ _ _).1 hx with rfl | hx
       · exact ⟨it, hmem, by rw [huri, hru], hun⟩
       · exact hi.owner x hx
     · intro x hx
-      rcases (mem_insertBy _ _ _ _).1 hx with rfl | hx
+      rcases (mem_insertBy8 _ _ _ _).1 hx with rfl | hx
       · rw [hrs]; exact ha
       · exact hi.chals x hx
     · intro d
